@@ -102,6 +102,13 @@ Proof. exact fmt_int_inj. Qed.
 Theorem C20_count_word_roundtrip : forall n,
   option_map (fun v => as_nat (TNum v)) (read_num (fmt_int (Z.of_nat n))) = Some (Some n).
 Proof. exact count_roundtrip. Qed.
+(* reading at the DECLARED data type of an array: an integer type admits integer literals only, within its range *)
+Theorem C20_int_word_at_declared_type : forall d lo hi z,
+  int_range d = Some (lo, hi) -> (lo <= z <= hi)%Z -> read_at d (fmt_int z) = Some (z, 1%positive).
+Proof. exact read_at_fmt_int. Qed.
+Theorem C20_integer_type_admits_integer_literals_only : forall d r s v,
+  int_range d = Some r -> read_at d s = Some v -> exists z, read_int s = Some z /\ v = (z, 1%positive).
+Proof. exact read_at_int_only. Qed.
 (* every word the writer's formats produce for a token ([renders]: the 24 keywords / field types / data types, decimal integer
    literals, decimal literals whose correctly rounded double is the value, field names that are neither numeric nor keywords)
    is mapped back to that token by the Coq lexer *)
@@ -143,6 +150,10 @@ Proof. exact text_nonvacuous. Qed.
    COMPUTATION with the structure table written next to the hand model. *)
 Theorem C20_source_structure_is_model_structure : cfg_vtk = model_cfg /\ consts_vtk = model_consts.
 Proof. exact source_structure. Qed.
+(* every table write of the source is immediately followed by a newline write in the same block (so the last number of a table is
+   never glued to the next token, also not across iterations of an enclosing loop) *)
+Theorem C20_source_tables_terminated : tables_terminated cfg_vtk = true /\ list_sum (map (fun m => count_tables 100 (snd m)) cfg_vtk) = 4.
+Proof. exact source_tables_terminated. Qed.
 (* the extracted IR, interpreted on the shape of a state, yields the keyword tokens of the model's file: on concrete reachable
    states here; for ALL states see C20_structure_trace (if present below) *)
 Theorem C20_structure_trace_examples :
